@@ -278,14 +278,15 @@ class StmtMixin:
             out += self.st(inner[0], i2)
         rs = self.ex(rinit)
         out += self.flush([], i2)
-        rname = self.tmp('__range')
+        # names are derived from the loop's source ordinal so that loop contracts can mention them stably
+        rname = f'__range{self.cur["loops"]}'
         ct = self.ctype(rt.strip_ref())
         if rinit.get('valueCategory') == 'prvalue':
             out.append(f'{i2}{ct} {rname}__v = {rs};')
             out.append(f'{i2}{ct} *{rname} = &{rname}__v;')
         else:
             out.append(f'{i2}{ct} *{rname} = {addr(rs)};')
-        idx = self.tmp('__i')
+        idx = f'__idx{self.cur["loops"]}'
         if fam == 'array':
             size = f'{rt.strip_ref().args[1].n}ul'
             elem = f'{rname}->_[{idx}]'
